@@ -37,6 +37,9 @@ def judge(text, verdict, outcome):
     if verdict.cls == "outside" and outcome[0] == "ok":
         return violation("accepted-outside-grammar", {"query": text},
                          {"raises": "JSONPathError", "why": verdict.why}, "accepted", "accepted")
+    if verdict.cls == "outside" and outcome[0] == "err" and not outcome[2]:
+        return violation("rejected-with-foreign-exception", {"query": text},
+                         {"raises": "JSONPathError", "why": verdict.why}, {"raised": outcome[1]}, "crash")
     return None
 
 
